@@ -15,8 +15,7 @@ TraceCase == IsEv("case") /\ cid' = Trace[l].id /\ ncases' = ncases + 1 /\ UNCHA
 TraceEnd == IsEv("endcase") /\ UNCHANGED <<cid, viol, drift, merr, ncases, x>>
 
 IsCallback(e) == HasPrefix(e.keykind, "callback")
-(* a key that cannot sign in this mode (GnuPG subkey-only export has a dummy primary key; clear-signing uses the primary) *)
-Unusable(e) == e.method = "dpkg-sig" /\ Contains(e.keykind, "subkey_only")
+(* (a GnuPG subkey-only export - dummy primary key, signing subkey - signs in every mode since 62fa09d) *)
 
 TraceSigEv ==
   /\ IsEv("sig")
@@ -29,7 +28,6 @@ TraceSigEv ==
                 \cup Cl(~e.built, "C06.no_success_when_signing_cannot_be_done")
                 \cup Cl(e.built \/ e.is_signing_failure, "C10.signing_failure_identifiable")
                 \cup Cl(e.built \/ e.wraps_cause, "C10.signing_failure_wraps_signer_error")
-           ELSE IF Unusable(e) /\ ~e.built THEN {}       \* (a key that cannot sign: refusing is fine; reporting success is not)
            ELSE IF ~e.built THEN {"C10.signed_package_built"}
            ELSE
              (CASE f = "deb" ->
@@ -55,8 +53,7 @@ TraceSigEv ==
                      \cup (IF IsCallback(e) THEN {} ELSE Cl(e.verifies_over = <<SigRange(f, "")>>, "C10.verifies_over_exact_bytes"))
                 [] OTHER -> {})
              \cup (IF IsCallback(e) THEN Cl(e.callback_got = CallbackRanges(f, e.method), "C10.callback_receives_exact_bytes") ELSE {})
-         doc == (IF Unusable(e) /\ ~e.built THEN {"DOC.dpkgsig_cannot_use_subkey_only_key"} ELSE {})
-                \cup (IF e.fail = "unknown_key_id" /\ e.method = "dpkg-sig" /\ e.built THEN {"DOC.dpkgsig_ignores_unknown_key_id"} ELSE {})
+         doc == {}
          \* C06 on the same observation: a packaging that reports success has delivered a COMPLETE package - with signing
          \* configured that includes a signature that is there and verifies (an empty or garbage signature member is
          \* incomplete output reported as success)
